@@ -6,6 +6,7 @@ from __future__ import annotations
 
 import json
 import random
+import zlib
 
 ABSENT = '~'
 
@@ -203,6 +204,10 @@ class Gen:
                         f = {'subcategorizationFrame': text}
                         if self.chance(0.3):
                             f['senses'] = [s['id'] for s in r.sample(e['senses'], r.randint(1, len(e['senses'])))]
+                            # (the order of the list is the document's: for every other entry it
+                            # is made descending, which no sorting writer reproduces)
+                            if len(f['senses']) > 1 and zlib.crc32(e['id'].encode()) % 2:
+                                f['senses'].sort(reverse=True)
                         fr.append(f)
                     e['frames'] = fr
         L['entries'] = entries
